@@ -25,6 +25,7 @@ REQUIRED_COUNTERS = ['chains_completed', 'centroid_node_pairs_checked',
                      'chains_with_a_parent_of_one_leaf_children',
                      'chains_with_a_leaf_without_reference_cells',
                      'chains_with_exactly_256_iterations',
+                     'chains_with_numbered_labels_shared_across_levels',
                      'chains_at_factor_one_with_several_iterations']
 RULE = ('case = generated labelled reference (separable clusters, 2-4 '
         'levels, 5-9 leaves, leaf names in non-alphabetical creation order) '
@@ -75,6 +76,9 @@ def gen_cases(tier, seed):
             # are then not aggregated), next to one with a two-leaf child
             cases[-1].update({'n_levels': 3, 'n_leaves': 7,
                               'one_leaf_children': True})
+        if i % 4 == 0:
+            cases[-1]['numbered'] = True
+            cases[-1]['n_levels'] = 3
         if i % 4 == 2:
             cases[-1]['empty_leaf'] = True
         if i % 4 == 3:
@@ -240,7 +244,10 @@ def run_case(spec, work):
         na = int(rng.integers(14, 20))
         forest = (tuple(() for _ in range(na)),
                   tuple(() for _ in range(spec['n_leaves'] - na)))
+    if spec.get('numbered'):
+        bump('chains_with_numbered_labels_shared_across_levels')
     ref = pw.make_reference(rng, work, forest=forest,
+                            numbered=bool(spec.get('numbered')),
                             n_levels=spec['n_levels'],
                             n_leaves=spec['n_leaves'],
                             n_genes=(int(rng.integers(30, 60))
